@@ -2,6 +2,7 @@ import XlModel.Ref
 import XlModel.RefApi
 import XlModel.RefMulti
 import XlModel.RefOpts
+import XlModel.RefCF
 import XlModel.Drv.Util
 namespace XlModel.Drv.C20
 open XlModel XlModel.Ref XlModel.Drv
@@ -105,11 +106,24 @@ def step (w : List String) : String :=
   | ["opt", k, h] => match OptKind.ofString k, unhexS h with
     | some kind, some s => if optAccepts kind s then "A" else "R"
     | _, _ => "bad-op"
+  | ["cfref", h] => match unhexS h with
+    | some s => showE hexS (cfPrepare s)
+    | none => "bad-op"
+  | ["swmerge", ha, hb] => match unhexS ha, unhexS hb with
+    | some a, some b => if decodeOk a && decodeOk b then "A" else "R"
+    | _, _ => "bad-op"
   | ["cfpair", ha, hb] => match unhexS ha, unhexS hb with
     | some a, some b => match cfUnsetFinds a b with
       | some true => "1"
       | some false => "0"
       | none => "none"
+    | _, _ => "bad-op"
+  | ["pathsx", rs, hc] => match parseRefs rs, unhexS hc with
+    | some ms, some c =>
+      let k := fun (e : Except Err Key) => match e with
+        | .ok key => (match key.stored with | some x => hexS x | none => "?")
+        | .error _ => "ERR"
+      "P=" ++ k (pathPrepareM ms c) ++ " G=" ++ k (pathGetStringM ms c)
     | _, _ => "bad-op"
   | ["paths", h] => match unhexS h with
     | some s => String.ofList (pathsOp s)
